@@ -35,6 +35,7 @@ Inductive c16case :=
 | CChainE (anns : list ent_ann) (im : image)
           (src_kind : nat) (src : list (str * list src_method))
           (cli_kind : nat) (cli : list cm_obs) (keys : list key)
+          (ents : list (str * str * list str))      (* entities of the client API: name, state schema, event names *)
           (sw_kind : nat)
 (* the client stage and swagger on a hand-built source API (services given directly) *)
 | CClient (im : image) (api : src_api)
@@ -105,8 +106,20 @@ Definition c16_check (c : c16case) : bool :=
           (Nat.eqb (kind (cr_client r)) ck
            && match cr_client r with Ok (ms, ks) => cli_matches ms cli && keys_match ks keys | _ => true end))
       && (negb (Nat.eqb sk 0 && Nat.eqb ck 0) || Nat.eqb (kind (cr_swagger r)) wk)
-  | CChainE anns im sk src ck cli keys wk =>
+  | CChainE anns im sk src ck cli keys eobs wk =>
       let r := run_chain_ent current_config im anns in
+      (* the entities the client API lists: the model's grouping, state schema and event names *)
+      (negb (Nat.eqb sk 0 && Nat.eqb ck 0) ||
+       match walk_source_schemas anns with
+       | Ok es =>
+           Nat.eqb (length es) (length eobs)
+           && forallb (fun o =>
+                existsb (fun e =>
+                  str_eqb (en_name e) (fst (fst o))
+                  && match en_state e with Some k => str_eqb (fst k ++ DOT :: snd k) (snd (fst o)) | None => false end
+                  && match entity_events (im_schemas im) e with Ok evs => strs_eqb evs (snd o) | _ => false end) es) eobs
+       | _ => false
+       end) &&
       Nat.eqb (kind (cr_source r)) sk
       && match cr_source r with Ok api => src_matches api src | _ => true end
       && (Nat.eqb sk 0 || Nat.eqb ck 9) && (Nat.eqb sk 0 && Nat.eqb ck 0 || Nat.eqb wk 9)
